@@ -1,6 +1,795 @@
-import JobShopModel.CpSat
+import JobShopProofs.CpLemmas
 /-!
 # C03 — the CP-SAT solver returns feasible, truly optimal schedules
+
+What is proved here is about the model `ORToolsSolver` hands to CP-SAT and about the schedule it reads back:
+
+* **sound**: every solution of the generated model is a feasible complete assignment (`FeasT`, the declarative notion
+  C08 uses) finishing by the objective value, and reading it back the way `_create_schedule` does (per machine, sorted
+  by `(start, end)`) passes the `Schedule` constructor's check — also with zero-duration operations;
+* **complete**: every feasible complete assignment finishing within the horizon is a solution with objective at most
+  its completion time; a solution always exists (the horizon `total_duration` is large enough), so "no solution" can
+  only come from a time limit;
+* hence the optimum of the model is the true optimum, is at most the makespan of every dispatcher-built schedule, and
+  at least every job's length and every machine's load.
+
+Trusted: CP-SAT (a returned solution satisfies the model; `OPTIMAL` means no solution has a smaller objective) and the
+constraint semantics `CpCon.holds` transcribed from `cp_model.proto`.
 -/
 namespace JS
+
+/-- one eligible machine per operation -/
+def NonFlexI (I : Instance) : Prop := ∀ j p op, getOp I j p = some op → ∃ m, op.machines = [m]
+
+/-- the assignment a solution encodes -/
+def asgOfSol (I : Instance) (v : Nat → Int) : Asg :=
+  { mach := fun j p => machOf I (j, p), st := fun j p => v (startVar I (j, p)) }
+
+theorem machOf_eq {I : Instance} {j p : Nat} {op : Op} (h : getOp I j p = some op) :
+    machOf I (j, p) = op.machines.headD 0 := by simp [machOf, h]
+
+theorem durOf_eq {I : Instance} {j p : Nat} {op : Op} (h : getOp I j p = some op) : durOf I (j, p) = op.dur := by
+  simp [durOf, h]
+
+/-- what a solution says about one operation -/
+theorem sat_op {I : Instance} {v : Nat → Int} (hs : (cpModel I).Sat v) {r : OpRef} (h : r ∈ allOps I) :
+    v (endVar I r) = v (startVar I r) + durOf I r ∧ 0 ≤ v (startVar I r) ∧ v (endVar I r) ≤ totalDuration I := by
+  have h1 := hs.con _ (cp_mem_endEq h)
+  simp only [CpCon.holds, linSum, List.map_cons, List.map_nil, List.sum_cons, List.sum_nil] at h1
+  have hlt := opId_lt h
+  have d1 := hs.dom (startVar I r) _ (cp_dom I _ (by simp only [startVar]; omega))
+  have d2 := hs.dom (endVar I r) _ (cp_dom I _ (by simp only [endVar]; omega))
+  simp only at d1 d2
+  refine ⟨by omega, d1.1, d2.2⟩
+
+theorem sat_prec {I : Instance} {v : Nat → Int} (hs : (cpModel I).Sat v) {j p : Nat} (h : (j, p + 1) ∈ allOps I) :
+    v (endVar I (j, p)) ≤ v (startVar I (j, p + 1)) := by
+  have h1 := hs.con _ (cp_mem_prec h (by simp))
+  simp only [CpCon.holds, linSum, List.map_cons, List.map_nil, List.sum_cons, List.sum_nil, Nat.add_sub_cancel] at h1
+  omega
+
+/-- on every machine the intervals of a solution are pairwise disjoint -/
+theorem sat_disjoint {I : Instance} (hv : Valid I) {v : Nat → Int} (hs : (cpModel I).Sat v) {m : Nat}
+    (hm : m < numMachines I) :
+    (opsOn I m).Pairwise fun a b => v (endVar I a) ≤ v (startVar I b) ∨ v (endVar I b) ≤ v (startVar I a) := by
+  have h1 := hs.con _ (cp_mem_noOverlap hm)
+  simp only [CpCon.holds, NoOverlap] at h1
+  obtain ⟨order, hperm, hcons⟩ := h1
+  have hmem : ∀ a ∈ order, v a.1 ≤ v a.2.2 := by
+    intro a ha
+    obtain ⟨r, hr, rfl⟩ := List.mem_map.1 (hperm.mem_iff.1 ha)
+    obtain ⟨h2, _, _⟩ := sat_op hs (mem_opsOn.1 hr).1
+    obtain ⟨op, hop⟩ := Option.isSome_iff_exists.1 ((mem_allOps' I r).1 (mem_opsOn.1 hr).1)
+    have hd : 0 ≤ durOf I r := by
+      have := (hv r.1 r.2 op hop).2.2
+      simp only [durOf, hop]; exact this
+    simp only [itvOf]; omega
+  have hpw := consec_pairwise (fun a : Itv => v a.1) (fun a => v a.2.2) order hmem hcons
+  have hsym : order.Pairwise fun a b => v a.2.2 ≤ v b.1 ∨ v b.2.2 ≤ v a.1 := hpw.imp (fun h => Or.inl h)
+  have hsym' : ((opsOn I m).map (itvOf I)).Pairwise fun a b => v a.2.2 ≤ v b.1 ∨ v b.2.2 ≤ v a.1 :=
+    (hperm.pairwise_iff (fun {a b} h => h.symm)).1 hsym
+  rw [List.pairwise_map] at hsym'
+  exact hsym'.imp (fun h => h)
+
+/-- **C03 (every solution is a feasible complete schedule).** For a valid non-flexible instance (durations `≥ 0`),
+every solution of the generated model assigns every operation its machine and a start time such that: no start is
+negative, operations of a job run in order without overlap, operations sharing a machine do not overlap — and every
+operation ends by the value of the objective variable, which is attained by some operation. -/
+theorem C03_solution_feasible (I : Instance) (hv : Valid I) (hn : NonFlexI I) (v : Nat → Int) (hs : (cpModel I).Sat v) :
+    FeasT I (asgOfSol I v) ∧ BoundT I (asgOfSol I v) (v (makespanVar I)) ∧
+    (∃ r ∈ allOps I, v (startVar I r) + durOf I r = v (makespanVar I)) := by
+  have hmax := hs.con _ (cp_mem_linMax I)
+  simp only [CpCon.holds, List.mem_map, forall_exists_index, and_imp, forall_apply_eq_imp_iff₂] at hmax
+  refine ⟨⟨?_, ?_, ?_, ?_⟩, ?_, ?_⟩
+  · intro j p op hop
+    obtain ⟨m, hm⟩ := hn j p op hop
+    simp only [asgOfSol, machOf_eq hop, hm]; simp
+  · intro j p op hop
+    exact (sat_op hs (mem_allOps_of_getOp hop)).2.1
+  · intro j p op op' hop hop'
+    have h1 := sat_op hs (mem_allOps_of_getOp hop)
+    have h2 := sat_prec hs (mem_allOps_of_getOp hop')
+    simp only [asgOfSol]
+    rw [← durOf_eq hop]; omega
+  · intro j p op j' p' op' hop hop' hne hmach
+    simp only [asgOfSol] at hmach ⊢
+    have hm : machOf I (j, p) < numMachines I := by
+      obtain ⟨m, hm⟩ := hn j p op hop
+      rw [machOf_eq hop, hm]
+      exact machine_lt I j p m op hop (by rw [hm]; simp)
+    have hpw := sat_disjoint hv hs hm
+    have ha : (j, p) ∈ opsOn I (machOf I (j, p)) := mem_opsOn.2 ⟨mem_allOps_of_getOp hop, rfl⟩
+    have hb : (j', p') ∈ opsOn I (machOf I (j, p)) := mem_opsOn.2 ⟨mem_allOps_of_getOp hop', hmach.symm⟩
+    have h1 := sat_op hs (mem_allOps_of_getOp hop)
+    have h2 := sat_op hs (mem_allOps_of_getOp hop')
+    rw [← durOf_eq hop, ← durOf_eq hop']
+    rcases pairwise_either hpw _ ha _ hb hne with h | h
+    · rcases h with h | h
+      · left; omega
+      · right; omega
+    · rcases h with h | h
+      · right; omega
+      · left; omega
+  · intro j p op hop
+    have h1 := sat_op hs (mem_allOps_of_getOp hop)
+    have := hmax.1 (j, p) (mem_allOps_of_getOp hop)
+    simp only [asgOfSol]
+    rw [← durOf_eq hop]; omega
+  · obtain ⟨e, ⟨r, hr, rfl⟩, he⟩ := hmax.2
+    exact ⟨r, hr, by rw [← he, (sat_op hs hr).1]⟩
+
+
+/-! ## reading the solution back -/
+
+theorem sopOf_end {I : Instance} {v : Nat → Int} (hs : (cpModel I).Sat v) {r : OpRef} (h : r ∈ allOps I) :
+    (sopOf I v r).end_ = v (endVar I r) := by
+  simp only [SOp.end_, sopOf]; rw [(sat_op hs h).1]
+
+theorem sopOf_dur_nonneg {I : Instance} (hv : Valid I) {v : Nat → Int} {r : OpRef} (h : r ∈ allOps I) :
+    0 ≤ (sopOf I v r).dur := by
+  obtain ⟨op, hop⟩ := Option.isSome_iff_exists.1 ((mem_allOps' I r).1 h)
+  simp only [sopOf, durOf, hop]; exact (hv r.1 r.2 op hop).2.2
+
+/-- on every machine, the list `_create_schedule` builds is in time order without overlap -/
+theorem cpSchedule_machine_ordered {I : Instance} (hv : Valid I) {v : Nat → Int} (hs : (cpModel I).Sat v) {m : Nat}
+    (hm : m < numMachines I) :
+    (sortSOps ((opsOn I m).map (sopOf I v))).Pairwise (fun a b => a.end_ ≤ b.start) := by
+  obtain ⟨hperm, hsorted⟩ := sortSOps_spec ((opsOn I m).map (sopOf I v))
+  have hdisj0 : ((opsOn I m).map (sopOf I v)).Pairwise Disj := by
+    rw [List.pairwise_map]
+    refine (sat_disjoint hv hs hm).imp_of_mem ?_
+    intro a b ha hb h
+    simp only [Disj, sopOf_end hs (mem_opsOn.1 ha).1, sopOf_end hs (mem_opsOn.1 hb).1]
+    exact h
+  have hdisj : (sortSOps ((opsOn I m).map (sopOf I v))).Pairwise Disj :=
+    (hperm.pairwise_iff (fun {a b} h => disj_symm h)).2 hdisj0
+  apply sorted_disjoint_ordered _ _ hsorted hdisj
+  intro a ha
+  obtain ⟨r, hr, rfl⟩ := List.mem_map.1 (hperm.mem_iff.1 ha)
+  exact sopOf_dur_nonneg hv (mem_opsOn.1 hr).1
+
+theorem pairwise_zip_tail {α} (R : α → α → Prop) : ∀ (l : List α), l.Pairwise R → ∀ ab ∈ l.zip l.tail, R ab.1 ab.2
+  | [], _, ab, h => by simp at h
+  | [a], _, ab, h => by simp at h
+  | a :: b :: t, hp, ab, h => by
+    simp only [List.tail_cons, List.zip_cons_cons, List.mem_cons] at h
+    rw [List.pairwise_cons] at hp
+    rcases h with rfl | h
+    · exact hp.1 b (by simp)
+    · exact pairwise_zip_tail R (b :: t) hp.2 ab (by simpa using h)
+
+theorem mem_cpSchedule {I : Instance} {v : Nat → Int} {ms : List SOp} (h : ms ∈ cpSchedule I v) :
+    ∃ m < numMachines I, ms = sortSOps ((opsOn I m).map (sopOf I v)) := by
+  simp only [cpSchedule, List.mem_map, List.mem_range] at h
+  obtain ⟨m, hm, rfl⟩ := h
+  exact ⟨m, hm, rfl⟩
+
+/-- **C03 (the schedule is accepted and reports its own makespan).** For every solution, `_create_schedule`'s
+per-machine lists sorted by `(start, end)` pass the `Schedule` constructor's check (so no `ValidationError`, also with
+zero-duration operations that share a start time with another operation), and `Schedule.makespan()` of the result is
+the value of the objective variable that is written into the metadata. -/
+theorem C03_schedule_accepted (I : Instance) (hv : Valid I) (hn : NonFlexI I) (v : Nat → Int) (hs : (cpModel I).Sat v) :
+    cpResult I v = some (cpSchedule I v, v (makespanVar I)) ∧
+    scheduleMakespan (cpSchedule I v) = v (makespanVar I) ∧
+    ∀ ms ∈ cpSchedule I v, ms.Pairwise (fun a b => a.end_ ≤ b.start) := by
+  have hord : ∀ ms ∈ cpSchedule I v, ms.Pairwise (fun a b => a.end_ ≤ b.start) := by
+    intro ms hms
+    obtain ⟨m, hm, rfl⟩ := mem_cpSchedule hms
+    exact cpSchedule_machine_ordered hv hs hm
+  have hmax := hs.con _ (cp_mem_linMax I)
+  simp only [CpCon.holds, List.mem_map, forall_exists_index, and_imp, forall_apply_eq_imp_iff₂] at hmax
+  have hmk0 : 0 ≤ v (makespanVar I) := (hs.dom (makespanVar I) _ (cp_dom I _ (by simp [makespanVar]))).1
+  refine ⟨?_, ?_, hord⟩
+  · unfold cpResult
+    have : scheduleCheck (cpSchedule I v) = true := by
+      simp only [scheduleCheck, List.all_eq_true, decide_eq_true_eq]
+      intro ms hms ab hab
+      exact pairwise_zip_tail _ ms (hord ms hms) ab hab
+    simp only [this, ↓reduceIte]
+  · apply Int.le_antisymm
+    · rcases foldl_last_attained (cpSchedule I v) 0 with h0 | ⟨ms, hms, l, hl, he⟩
+      · unfold scheduleMakespan; rw [h0]; exact hmk0
+      · unfold scheduleMakespan; rw [← he]
+        obtain ⟨m, hm, rfl⟩ := mem_cpSchedule hms
+        have hl' := (sortSOps_spec ((opsOn I m).map (sopOf I v))).1.mem_iff.1 (List.mem_of_getLast? hl)
+        obtain ⟨r, hr, rfl⟩ := List.mem_map.1 hl'
+        rw [sopOf_end hs (mem_opsOn.1 hr).1]
+        exact hmax.1 r (mem_opsOn.1 hr).1
+    · obtain ⟨e, ⟨r, hr, rfl⟩, he⟩ := hmax.2
+      rw [← he]
+      -- r sits on its machine's list; the last entry of that list ends no earlier
+      obtain ⟨op, hop⟩ := Option.isSome_iff_exists.1 ((mem_allOps' I r).1 hr)
+      have hm : machOf I r < numMachines I := by
+        obtain ⟨m, hm⟩ := hn r.1 r.2 op hop
+        rw [show r = (r.1, r.2) from rfl, machOf_eq hop, hm]
+        exact machine_lt I r.1 r.2 m op hop (by rw [hm]; simp)
+      have hmem : sopOf I v r ∈ sortSOps ((opsOn I (machOf I r)).map (sopOf I v)) :=
+        (sortSOps_spec _).1.mem_iff.2 (List.mem_map_of_mem (mem_opsOn.2 ⟨hr, rfl⟩))
+      have hin : sortSOps ((opsOn I (machOf I r)).map (sopOf I v)) ∈ cpSchedule I v := by
+        simp only [cpSchedule, List.mem_map, List.mem_range]; exact ⟨_, hm, rfl⟩
+      have hpw := cpSchedule_machine_ordered hv hs hm
+      generalize sortSOps ((opsOn I (machOf I r)).map (sopOf I v)) = ms at hmem hin hpw
+      cases hl : ms.getLast? with
+      | none => rw [List.getLast?_eq_none_iff] at hl; subst hl; cases hmem
+      | some l =>
+        have hle : (sopOf I v r).end_ ≤ l.end_ := by
+          obtain ⟨pre, rfl⟩ : ∃ pre, ms = pre ++ [l] := by
+            have := List.getLast?_eq_some_iff.1 hl
+            exact this
+          rcases List.mem_append.1 hmem with h1 | h1
+          · have := (List.pairwise_append.1 hpw).2.2 _ h1 l (by simp)
+            have hd : 0 ≤ l.dur := by
+              have hl2 : l ∈ pre ++ [l] := by simp
+              rcases hin' : mem_cpSchedule hin with ⟨m', hm', heq⟩
+              have := (sortSOps_spec ((opsOn I m').map (sopOf I v))).1.mem_iff.1 (heq ▸ hl2)
+              obtain ⟨r', hr', rfl⟩ := List.mem_map.1 this
+              exact sopOf_dur_nonneg hv (mem_opsOn.1 hr').1
+            simp only [SOp.end_] at this ⊢; omega
+          · simp at h1; rw [h1]; exact Int.le_refl _
+        rw [← sopOf_end hs hr]
+        exact Int.le_trans hle (foldl_last_mem (cpSchedule I v) 0 ms l hin hl)
+
+
+/-! ## every feasible assignment within the horizon is a solution -/
+
+def maxEnd (I : Instance) (T : Asg) : Int := ((allOps I).map fun r => T.st r.1 r.2 + durOf I r).foldl max 0
+
+/-- the solution that encodes an assignment -/
+def solOf (I : Instance) (T : Asg) (i : Nat) : Int :=
+  if i = makespanVar I then maxEnd I T else
+  let r := (allOps I).getD (i / 2) (0, 0)
+  if i % 2 = 0 then T.st r.1 r.2 else T.st r.1 r.2 + durOf I r
+
+theorem foldlMaxInt_ge (l : List Int) : ∀ (acc : Int), acc ≤ l.foldl max acc ∧ ∀ x ∈ l, x ≤ l.foldl max acc := by
+  induction l with
+  | nil => intro acc; simp
+  | cons a t ih =>
+    intro acc
+    simp only [List.foldl_cons, List.mem_cons]
+    obtain ⟨h1, h2⟩ := ih (max acc a)
+    refine ⟨by omega, ?_⟩
+    rintro x (rfl | hx)
+    · omega
+    · exact h2 x hx
+
+theorem foldlMaxInt_attained (l : List Int) : ∀ (acc : Int), l.foldl max acc = acc ∨ l.foldl max acc ∈ l := by
+  induction l with
+  | nil => intro acc; left; rfl
+  | cons a t ih =>
+    intro acc
+    simp only [List.foldl_cons, List.mem_cons]
+    rcases ih (max acc a) with h | h
+    · by_cases hc : a ≤ acc
+      · left; rw [h]; omega
+      · right; left; rw [h]; omega
+    · right; right; exact h
+
+theorem solOf_start {I : Instance} (T : Asg) {r : OpRef} (h : r ∈ allOps I) : solOf I T (startVar I r) = T.st r.1 r.2 := by
+  have hlt := opId_lt h
+  have hg := allOps_getElem_opId h
+  unfold solOf
+  have hne : startVar I r ≠ makespanVar I := by simp only [startVar, makespanVar]; omega
+  rw [if_neg hne]
+  have h2 : startVar I r / 2 = opId I r := by simp only [startVar]; omega
+  have h3 : startVar I r % 2 = 0 := by simp only [startVar]; omega
+  simp only [h2, h3, ↓reduceIte, List.getD_eq_getElem?_getD, hg, Option.getD_some]
+
+theorem solOf_end {I : Instance} (T : Asg) {r : OpRef} (h : r ∈ allOps I) :
+    solOf I T (endVar I r) = T.st r.1 r.2 + durOf I r := by
+  have hlt := opId_lt h
+  have hg := allOps_getElem_opId h
+  unfold solOf
+  have hne : endVar I r ≠ makespanVar I := by simp only [endVar, makespanVar]; omega
+  rw [if_neg hne]
+  have h2 : endVar I r / 2 = opId I r := by simp only [endVar]; omega
+  have h3 : ¬ endVar I r % 2 = 0 := by simp only [endVar]; omega
+  simp only [h2, h3, ↓reduceIte, List.getD_eq_getElem?_getD, hg, Option.getD_some]
+
+theorem solOf_mk (I : Instance) (T : Asg) : solOf I T (makespanVar I) = maxEnd I T := by simp [solOf]
+
+theorem pairwise_of_nodup {α} (R : α → α → Prop) : ∀ (l : List α), l.Nodup → (∀ a ∈ l, ∀ b ∈ l, a ≠ b → R a b) → l.Pairwise R
+  | [], _, _ => List.Pairwise.nil
+  | a :: t, hn, h => by
+    rw [List.nodup_cons] at hn
+    rw [List.pairwise_cons]
+    refine ⟨fun b hb => h a (by simp) b (by simp [hb]) (fun e => hn.1 (e ▸ hb)), ?_⟩
+    exact pairwise_of_nodup R t hn.2 (fun x hx y hy hne => h x (by simp [hx]) y (by simp [hy]) hne)
+
+/-- **C03 (every feasible schedule within the horizon is a solution).** A feasible complete assignment that uses
+each operation's machine and finishes by `B ≤ total_duration` is a solution of the generated model whose objective
+value is at most `B`. -/
+theorem C03_feasible_is_solution (I : Instance) (hv : Valid I) (T : Asg) (hT : FeasT I T)
+    (hmach : ∀ j p op, getOp I j p = some op → T.mach j p = machOf I (j, p))
+    (B : Int) (hB : BoundT I T B) (hH : B ≤ totalDuration I) (hB0 : 0 ≤ B) (hne : 0 < numOps I) :
+    (cpModel I).Sat (solOf I T) ∧ solOf I T (makespanVar I) ≤ B := by
+  have hop_of : ∀ r ∈ allOps I, ∃ op, getOp I r.1 r.2 = some op := fun r hr =>
+    Option.isSome_iff_exists.1 ((mem_allOps' I r).1 hr)
+  have hdur : ∀ r ∈ allOps I, 0 ≤ durOf I r := by
+    intro r hr
+    obtain ⟨op, hop⟩ := hop_of r hr
+    simp only [durOf, hop]; exact (hv r.1 r.2 op hop).2.2
+  have hst0 : ∀ r ∈ allOps I, 0 ≤ T.st r.1 r.2 := fun r hr => by
+    obtain ⟨op, hop⟩ := hop_of r hr; exact hT.nonneg r.1 r.2 op hop
+  have hendB : ∀ r ∈ allOps I, T.st r.1 r.2 + durOf I r ≤ B := fun r hr => by
+    obtain ⟨op, hop⟩ := hop_of r hr
+    have := hB r.1 r.2 op hop
+    simp only [durOf, hop]; exact this
+  have hmaxle : maxEnd I T ≤ B := by
+    unfold maxEnd
+    rcases foldlMaxInt_attained ((allOps I).map fun r => T.st r.1 r.2 + durOf I r) 0 with h | h
+    · rw [h]; exact hB0
+    · obtain ⟨r, hr, he⟩ := List.mem_map.1 h
+      rw [← he]; exact hendB r hr
+  have hmaxge : ∀ r ∈ allOps I, T.st r.1 r.2 + durOf I r ≤ maxEnd I T := fun r hr =>
+    (foldlMaxInt_ge ((allOps I).map fun r => T.st r.1 r.2 + durOf I r) 0).2 _
+      (List.mem_map_of_mem (f := fun r => T.st r.1 r.2 + durOf I r) hr)
+  have hmax0 : 0 ≤ maxEnd I T := (foldlMaxInt_ge ((allOps I).map fun r => T.st r.1 r.2 + durOf I r) 0).1
+  -- disjointness on a machine
+  have hdisj : ∀ m, ((opsOn I m).map (sopOf I (solOf I T))).Pairwise Disj := by
+    intro m
+    rw [List.pairwise_map]
+    apply pairwise_of_nodup _ _ ((nodup_allOps I).filter _)
+    intro a ha b hb hab
+    obtain ⟨opa, hopa⟩ := hop_of a (mem_opsOn.1 ha).1
+    obtain ⟨opb, hopb⟩ := hop_of b (mem_opsOn.1 hb).1
+    have hm : T.mach a.1 a.2 = T.mach b.1 b.2 := by
+      rw [hmach _ _ _ hopa, hmach _ _ _ hopb]
+      exact (mem_opsOn.1 ha).2.trans (mem_opsOn.1 hb).2.symm
+    have := hT.disj a.1 a.2 opa b.1 b.2 opb hopa hopb hab hm
+    simp only [Disj, SOp.end_, sopOf, solOf_start T (mem_opsOn.1 ha).1, solOf_start T (mem_opsOn.1 hb).1, durOf, hopa, hopb]
+    exact this
+  refine ⟨⟨?_, ?_⟩, by rw [solOf_mk]; exact hmaxle⟩
+  · -- domains
+    intro i lh hi
+    obtain ⟨hlt, rfl⟩ := cp_dom_some hi
+    simp only
+    by_cases hmk : i = makespanVar I
+    · rw [hmk, solOf_mk]; exact ⟨hmax0, by omega⟩
+    · have hk : i / 2 < (allOps I).length := by rw [length_allOps]; simp only [makespanVar] at hmk; omega
+      have hr : (allOps I)[i / 2] ∈ allOps I := List.getElem_mem hk
+      have hopid : opId I ((allOps I)[i / 2]) = i / 2 := by
+        have := C14_ids I
+        have h2 : ((allOps I).map (opId I))[i / 2]? = some (opId I ((allOps I)[i / 2])) := by
+          simp [List.getElem?_eq_getElem hk]
+        rw [this, List.getElem?_range (by rwa [length_allOps] at hk)] at h2
+        exact (Option.some.inj h2).symm
+      by_cases hpar : i % 2 = 0
+      · have : i = startVar I ((allOps I)[i / 2]) := by simp only [startVar, hopid]; omega
+        rw [this, solOf_start T hr]
+        have := hendB _ hr; have := hdur _ hr; have := hst0 _ hr
+        exact ⟨by omega, by omega⟩
+      · have : i = endVar I ((allOps I)[i / 2]) := by simp only [endVar, hopid]; omega
+        rw [this, solOf_end T hr]
+        have := hendB _ hr; have := hdur _ hr; have := hst0 _ hr
+        exact ⟨by omega, by omega⟩
+  · -- constraints
+    intro c hc
+    rcases cp_cons_cases hc with ⟨r, hr, rfl⟩ | ⟨r, hr, hp, rfl⟩ | ⟨m, hm, r, hr, rfl⟩ | ⟨m, hm, rfl⟩ | rfl
+    · simp only [CpCon.holds, linSum, List.map_cons, List.map_nil, List.sum_cons, List.sum_nil,
+        solOf_start T hr, solOf_end T hr]
+      omega
+    · obtain ⟨op, hop⟩ := hop_of r hr
+      have hprev : (r.1, r.2 - 1) ∈ allOps I := by
+        rw [mem_allOps']
+        simp only [getOp] at hop ⊢
+        cases hj : I[r.1]? with
+        | none => simp [hj] at hop
+        | some job =>
+          simp only [hj, Option.bind_some] at hop ⊢
+          have hlt : r.2 < job.length := (List.getElem?_eq_some_iff.1 hop).1
+          simp [List.getElem?_eq_getElem (show r.2 - 1 < job.length by omega)]
+      obtain ⟨op', hop'⟩ := hop_of _ hprev
+      have hsucc : getOp I r.1 (r.2 - 1 + 1) = some op := by
+        rw [Nat.sub_add_cancel (by omega)]; exact hop
+      have := hT.prec r.1 (r.2 - 1) op' op hop' hsucc
+      rw [Nat.sub_add_cancel (by omega)] at this
+      simp only [CpCon.holds, linSum, List.map_cons, List.map_nil, List.sum_cons, List.sum_nil,
+        solOf_start T hr, solOf_end T hprev, durOf, hop', true_and]
+      omega
+    · have hr' := (mem_opsOn.1 hr).1
+      show solOf I T (startVar I r) + durOf I r = solOf I T (endVar I r)
+      rw [solOf_start T hr', solOf_end T hr']
+    · -- no overlap: the sorted order is a witness
+      simp only [CpCon.holds, NoOverlap]
+      obtain ⟨hperm, hsorted⟩ := sortSOps_spec ((opsOn I m).map (sopOf I (solOf I T)))
+      have hd : (sortSOps ((opsOn I m).map (sopOf I (solOf I T)))).Pairwise Disj :=
+        (hperm.pairwise_iff (fun {a b} h => disj_symm h)).2 (hdisj m)
+      have hmemr : ∀ a ∈ sortSOps ((opsOn I m).map (sopOf I (solOf I T))), ∃ r ∈ opsOn I m, a = sopOf I (solOf I T) r := by
+        intro a ha
+        obtain ⟨r, hr, rfl⟩ := List.mem_map.1 (hperm.mem_iff.1 ha)
+        exact ⟨r, hr, rfl⟩
+      have hord := sorted_disjoint_ordered _ (fun a ha => by
+        obtain ⟨r, hr, rfl⟩ := hmemr a ha
+        simp only [sopOf]; exact hdur r (mem_opsOn.1 hr).1) hsorted hd
+      refine ⟨(sortSOps ((opsOn I m).map (sopOf I (solOf I T)))).map (fun x => itvOf I (x.job, x.pos)), ?_, ?_⟩
+      · have := hperm.map (fun x : SOp => itvOf I (x.job, x.pos))
+        rw [List.map_map] at this
+        exact this
+      · apply pairwise_consec
+        rw [List.pairwise_map]
+        refine hord.imp_of_mem ?_
+        intro a b ha hb hab
+        obtain ⟨ra, hra, rfl⟩ := hmemr a ha
+        obtain ⟨rb, hrb, rfl⟩ := hmemr b hb
+        simp only [itvOf, sopOf, solOf_end T (mem_opsOn.1 hra).1, solOf_start T (mem_opsOn.1 hrb).1]
+        simp only [SOp.end_, sopOf, solOf_start T (mem_opsOn.1 hra).1, solOf_start T (mem_opsOn.1 hrb).1] at hab
+        exact hab
+    · simp only [CpCon.holds, List.mem_map, forall_exists_index, and_imp, forall_apply_eq_imp_iff₂, solOf_mk]
+      refine ⟨fun r hr => by rw [solOf_end T hr]; exact hmaxge r hr, ?_⟩
+      unfold maxEnd
+      rcases foldlMaxInt_attained ((allOps I).map fun r => T.st r.1 r.2 + durOf I r) 0 with h | h
+      · -- the maximum is 0: every operation ends at 0, any of them attains it
+        have hpos : 0 < (allOps I).length := by rw [length_allOps]; exact hne
+        obtain ⟨r, hr⟩ := List.exists_mem_of_length_pos hpos
+        refine ⟨endVar I r, ⟨r, hr, rfl⟩, ?_⟩
+        rw [solOf_end T hr, h]
+        have h1 := hmaxge r hr
+        unfold maxEnd at h1; rw [h] at h1
+        have := hst0 r hr; have := hdur r hr
+        omega
+      · obtain ⟨r, hr, he⟩ := List.mem_map.1 h
+        exact ⟨endVar I r, ⟨r, hr, rfl⟩, by rw [solOf_end T hr, ← he]⟩
+
+
+/-! ## a solution always exists: run the operations one after another -/
+
+def jobDurL (job : List Op) : Int := (job.map (·.dur)).sum
+def jobOffset (I : Instance) (j : Nat) : Int := ((I.take j).map jobDurL).sum
+def withinJob (I : Instance) (j p : Nat) : Int := (((I.getD j []).take p).map (·.dur)).sum
+
+/-- every operation starts when all operations before it (job-major order) have finished -/
+def seqT (I : Instance) : Asg :=
+  { mach := fun j p => machOf I (j, p), st := fun j p => jobOffset I j + withinJob I j p }
+
+theorem sum_nonneg_of {l : List Int} (h : ∀ x ∈ l, 0 ≤ x) : 0 ≤ l.sum := by
+  induction l with
+  | nil => simp
+  | cons a t ih =>
+    simp only [List.sum_cons]
+    have := h a (by simp)
+    have := ih (fun x hx => h x (by simp [hx]))
+    omega
+
+theorem sum_take_mono (l : List Int) (h : ∀ x ∈ l, 0 ≤ x) : ∀ (k k' : Nat), k ≤ k' → (l.take k).sum ≤ (l.take k').sum := by
+  induction l with
+  | nil => intro k k' _; simp
+  | cons a t ih =>
+    intro k k' hk
+    cases k with
+    | zero =>
+      simp only [List.take_zero, List.sum_nil]
+      exact sum_nonneg_of (fun x hx => h x (List.mem_of_mem_take hx))
+    | succ k =>
+      cases k' with
+      | zero => omega
+      | succ k' =>
+        simp only [List.take_succ_cons, List.sum_cons]
+        have := ih (fun x hx => h x (by simp [hx])) k k' (by omega)
+        omega
+
+theorem sum_take_le (l : List Int) (h : ∀ x ∈ l, 0 ≤ x) (k : Nat) : (l.take k).sum ≤ l.sum := by
+  by_cases hk : k ≤ l.length
+  · have := sum_take_mono l h k l.length hk
+    simpa using this
+  · rw [List.take_of_length_le (by omega)]; exact Int.le_refl _
+
+theorem take_succ_sum {α} (l : List α) (f : α → Int) (k : Nat) (x : α) (h : l[k]? = some x) :
+    ((l.take (k + 1)).map f).sum = ((l.take k).map f).sum + f x := by
+  rw [List.take_add_one, h]
+  simp
+
+theorem valid_job_nonneg {I : Instance} (hv : Valid I) (j : Nat) : ∀ x ∈ (I.getD j []).map (·.dur), 0 ≤ x := by
+  intro x hx
+  obtain ⟨op, hop, rfl⟩ := List.mem_map.1 hx
+  obtain ⟨p, hp⟩ := List.getElem?_of_mem hop
+  have hj : j < I.length := by
+    apply Classical.byContradiction; intro hn
+    have : I.getD j [] = [] := by simp [List.getD_eq_getElem?_getD, List.getElem?_eq_none (by omega : I.length ≤ j)]
+    rw [this] at hop; cases hop
+  have : getOp I j p = some op := by
+    simp only [getOp, List.getElem?_eq_getElem hj, Option.bind_some]
+    simpa [List.getD_eq_getElem?_getD, List.getElem?_eq_getElem hj] using hp
+  exact (hv j p op this).2.2
+
+theorem jobDurL_nonneg {I : Instance} (hv : Valid I) : ∀ x ∈ I.map jobDurL, 0 ≤ x := by
+  intro x hx
+  obtain ⟨job, hjob, rfl⟩ := List.mem_map.1 hx
+  obtain ⟨j, hj⟩ := List.getElem?_of_mem hjob
+  have : job = I.getD j [] := by simp [List.getD_eq_getElem?_getD, hj]
+  unfold jobDurL
+  rw [this]
+  exact sum_nonneg_of (valid_job_nonneg hv j)
+
+theorem getOp_parts {I : Instance} {j p : Nat} {op : Op} (h : getOp I j p = some op) :
+    I[j]? = some (I.getD j []) ∧ (I.getD j [])[p]? = some op := by
+  simp only [getOp] at h
+  cases hj : I[j]? with
+  | none => simp [hj] at h
+  | some job =>
+    simp only [hj, Option.bind_some] at h
+    simp [List.getD_eq_getElem?_getD, hj, h]
+
+theorem seq_end_le_next {I : Instance} (hv : Valid I) {j p : Nat} {op : Op} (h : getOp I j p = some op) :
+    jobOffset I j + withinJob I j p + op.dur ≤ jobOffset I (j + 1) := by
+  obtain ⟨hj, hp⟩ := getOp_parts h
+  have h1 : withinJob I j (p + 1) = withinJob I j p + op.dur := take_succ_sum _ _ p op hp
+  have h2 : withinJob I j (p + 1) ≤ jobDurL (I.getD j []) := by
+    unfold withinJob jobDurL
+    rw [List.map_take]
+    exact sum_take_le _ (valid_job_nonneg hv j) _
+  have h3 : jobOffset I (j + 1) = jobOffset I j + jobDurL (I.getD j []) := take_succ_sum I jobDurL j _ hj
+  omega
+
+theorem jobOffset_mono {I : Instance} (hv : Valid I) {j j' : Nat} (h : j ≤ j') : jobOffset I j ≤ jobOffset I j' := by
+  unfold jobOffset
+  rw [List.map_take, List.map_take]
+  exact sum_take_mono _ (jobDurL_nonneg hv) j j' h
+
+theorem totalDuration_eq (I : Instance) : totalDuration I = (I.map jobDurL).sum := rfl
+
+theorem seqT_feasible (I : Instance) (hv : Valid I) (hn : NonFlexI I) :
+    FeasT I (seqT I) ∧ BoundT I (seqT I) (totalDuration I) := by
+  have hoff0 : ∀ j, 0 ≤ jobOffset I j := fun j => by
+    unfold jobOffset; rw [List.map_take]
+    have := sum_take_mono _ (jobDurL_nonneg hv) 0 j (by omega)
+    simpa using this
+  have hwith0 : ∀ j p, 0 ≤ withinJob I j p := fun j p => by
+    unfold withinJob; rw [List.map_take]
+    have := sum_take_mono _ (valid_job_nonneg hv j) 0 p (by omega)
+    simpa using this
+  refine ⟨⟨?_, ?_, ?_, ?_⟩, ?_⟩
+  · intro j p op hop
+    obtain ⟨m, hm⟩ := hn j p op hop
+    simp only [seqT, machOf_eq hop, hm]; simp
+  · intro j p op hop
+    simp only [seqT]; have := hoff0 j; have := hwith0 j p; omega
+  · intro j p op op' hop hop'
+    obtain ⟨_, hp⟩ := getOp_parts hop
+    have h1 : withinJob I j (p + 1) = withinJob I j p + op.dur := take_succ_sum _ _ p op hp
+    simp only [seqT]; omega
+  · intro j p op j' p' op' hop hop' hne _
+    simp only [seqT]
+    have e1 := seq_end_le_next hv hop
+    have e2 := seq_end_le_next hv hop'
+    rcases Nat.lt_trichotomy j j' with hlt | heq | hgt
+    · left
+      have := jobOffset_mono hv (show j + 1 ≤ j' by omega)
+      have := hwith0 j' p'
+      omega
+    · subst heq
+      have hpp : p ≠ p' := fun h => hne (by rw [h])
+      obtain ⟨_, hp⟩ := getOp_parts hop
+      obtain ⟨_, hp'⟩ := getOp_parts hop'
+      have h1 : withinJob I j (p + 1) = withinJob I j p + op.dur := take_succ_sum _ _ p op hp
+      have h1' : withinJob I j (p' + 1) = withinJob I j p' + op'.dur := take_succ_sum _ _ p' op' hp'
+      rcases Nat.lt_or_gt_of_ne hpp with h | h
+      · left
+        have : withinJob I j (p + 1) ≤ withinJob I j p' := by
+          unfold withinJob; rw [List.map_take, List.map_take]
+          exact sum_take_mono _ (valid_job_nonneg hv j) _ _ (by omega)
+        omega
+      · right
+        have : withinJob I j (p' + 1) ≤ withinJob I j p := by
+          unfold withinJob; rw [List.map_take, List.map_take]
+          exact sum_take_mono _ (valid_job_nonneg hv j) _ _ (by omega)
+        omega
+    · right
+      have := jobOffset_mono hv (show j' + 1 ≤ j by omega)
+      have := hwith0 j p
+      omega
+  · intro j p op hop
+    have e1 := seq_end_le_next hv hop
+    have : jobOffset I (j + 1) ≤ totalDuration I := by
+      rw [totalDuration_eq]; unfold jobOffset; rw [List.map_take]
+      exact sum_take_le _ (jobDurL_nonneg hv) _
+    simp only [seqT]; omega
+
+/-- **C03 (a solution always exists).** The horizon `total_duration` is large enough: the generated model of every
+valid non-flexible instance has a solution, so CP-SAT can only fail to return one because of a time limit. -/
+theorem C03_solution_exists (I : Instance) (hv : Valid I) (hn : NonFlexI I) (hne : 0 < numOps I) :
+    ∃ v, (cpModel I).Sat v ∧ v (makespanVar I) ≤ totalDuration I := by
+  obtain ⟨hT, hB⟩ := seqT_feasible I hv hn
+  have hH0 : 0 ≤ totalDuration I := by rw [totalDuration_eq]; exact sum_nonneg_of (jobDurL_nonneg hv)
+  exact ⟨solOf I (seqT I), C03_feasible_is_solution I hv (seqT I) hT (fun _ _ _ _ => rfl) _ hB (Int.le_refl _) hH0 hne⟩
+
+/-- **C03 (the optimum of the model is the true optimum).** For every bound `B`: the model has a solution with
+objective `≤ B` exactly when some feasible complete assignment (each operation on its machine) finishes everything
+by `B`.  So when CP-SAT reports `OPTIMAL`, no feasible schedule is shorter. -/
+theorem C03_optimum (I : Instance) (hv : Valid I) (hn : NonFlexI I) (hne : 0 < numOps I) (B : Int) :
+    (∃ v, (cpModel I).Sat v ∧ v (makespanVar I) ≤ B) ↔
+    (∃ T, FeasT I T ∧ (∀ j p op, getOp I j p = some op → T.mach j p = machOf I (j, p)) ∧ BoundT I T B ∧ 0 ≤ B) := by
+  constructor
+  · rintro ⟨v, hs, hle⟩
+    obtain ⟨hT, hB, _⟩ := C03_solution_feasible I hv hn v hs
+    have hmk0 : 0 ≤ v (makespanVar I) := (hs.dom (makespanVar I) _ (cp_dom I _ (by simp [makespanVar]))).1
+    exact ⟨asgOfSol I v, hT, fun _ _ _ _ => rfl, fun j p op hop => Int.le_trans (hB j p op hop) hle, by omega⟩
+  · rintro ⟨T, hT, hm, hB, hB0⟩
+    by_cases hH : B ≤ totalDuration I
+    · exact ⟨solOf I T, C03_feasible_is_solution I hv T hT hm B hB hH hB0 hne⟩
+    · obtain ⟨v, hs, hle⟩ := C03_solution_exists I hv hn hne
+      exact ⟨v, hs, by omega⟩
+
+/-- **C03 (never above a dispatcher-built schedule).** For every complete schedule the dispatcher can build — in
+particular the result of every dispatching rule — the model has a solution whose objective is at most that
+schedule's makespan; an `OPTIMAL` answer is therefore never above any dispatching-rule result. -/
+theorem C03_le_dispatcher (I : Instance) (hv : Valid I) (hn : NonFlexI I) (hne : 0 < numOps I)
+    (h : List (Nat × Nat × Nat)) (s : State) (ha : AHist I h s) (hc : isComplete I s = true) :
+    ∃ v, (cpModel I).Sat v ∧ v (makespanVar I) ≤ makespan s := by
+  obtain ⟨hT, hB⟩ := asgOf_feasible hv (ha.cinv hv) hc
+  apply (C03_optimum I hv hn hne (makespan s)).2
+  refine ⟨asgOf s, hT, ?_, hB, ?_⟩
+  · intro j p op hop
+    obtain ⟨m, hm⟩ := hn j p op hop
+    have := hT.elig j p op hop
+    rw [hm] at this
+    simp only [List.mem_singleton] at this
+    rw [this, machOf_eq hop, hm]; rfl
+  · unfold makespan; exact foldl_last_ge _ 0
+
+
+/-! ## the returned schedule contains every operation exactly once -/
+
+theorem flatMap_perm_congr {α β} (f g : α → List β) : ∀ (l : List α), (∀ a ∈ l, (f a).Perm (g a)) →
+    (l.flatMap f).Perm (l.flatMap g)
+  | [], _ => List.Perm.refl _
+  | a :: t, h => by
+    simp only [List.flatMap_cons]
+    exact (h a (by simp)).append (flatMap_perm_congr f g t (fun x hx => h x (by simp [hx])))
+
+theorem buckets_perm {α} (f : α → Nat) (l : List α) : ∀ (M : Nat),
+    ((List.range M).flatMap fun m => l.filter fun x => f x == m).Perm (l.filter fun x => decide (f x < M))
+  | 0 => by simp
+  | M + 1 => by
+    rw [List.range_succ, List.flatMap_append]
+    simp only [List.flatMap_cons, List.flatMap_nil, List.append_nil]
+    have ih := buckets_perm f l M
+    have h1 := List.filter_append_perm (fun x => decide (f x < M)) (l.filter fun x => decide (f x < M + 1))
+    have e1 : (l.filter fun x => decide (f x < M + 1)).filter (fun x => decide (f x < M)) = l.filter fun x => decide (f x < M) := by
+      rw [List.filter_filter]
+      apply List.filter_congr
+      intro x _
+      by_cases h : f x < M
+      · have : f x < M + 1 := by omega
+        simp [h, this]
+      · simp [h]
+    have e2 : (l.filter fun x => decide (f x < M + 1)).filter (fun x => !decide (f x < M)) = l.filter fun x => f x == M := by
+      rw [List.filter_filter]
+      apply List.filter_congr
+      intro x _
+      by_cases h : f x = M
+      · simp [h]
+      · have : (f x == M) = false := by simpa using h
+        rw [this]
+        by_cases h2 : f x < M <;> simp [h2] <;> omega
+    rw [e1, e2] at h1
+    exact (ih.append_right _).trans h1
+
+/-- **C03 (complete).** The returned schedule contains exactly the operations of the instance, each once, each with
+its duration, on its machine, at the start time the solver assigned. -/
+theorem C03_schedule_complete (I : Instance) (hn : NonFlexI I) (v : Nat → Int) :
+    (cpSchedule I v).flatten.Perm ((allOps I).map (sopOf I v)) ∧
+    (cpSchedule I v).length = numMachines I ∧
+    ∀ m, ∀ x ∈ (cpSchedule I v).getD m [], x.machine = m := by
+  refine ⟨?_, by simp [cpSchedule], ?_⟩
+  · have h1 : (cpSchedule I v).flatten =
+        (List.range (numMachines I)).flatMap fun m => sortSOps ((opsOn I m).map (sopOf I v)) := by
+      simp [cpSchedule, List.flatMap]
+    rw [h1]
+    have h2 := flatMap_perm_congr (fun m => sortSOps ((opsOn I m).map (sopOf I v)))
+      (fun m => ((allOps I).filter fun r => machOf I r == m).map (sopOf I v)) (List.range (numMachines I))
+      (fun m _ => (sortSOps_spec _).1)
+    refine h2.trans ?_
+    have h3 : ((List.range (numMachines I)).flatMap fun m => ((allOps I).filter fun r => machOf I r == m).map (sopOf I v))
+        = ((List.range (numMachines I)).flatMap fun m => (allOps I).filter fun r => machOf I r == m).map (sopOf I v) := by
+      rw [List.map_flatMap]
+    rw [h3]
+    apply List.Perm.map
+    refine (buckets_perm (machOf I) (allOps I) (numMachines I)).trans ?_
+    rw [List.filter_eq_self.2]
+    intro r hr
+    obtain ⟨op, hop⟩ := Option.isSome_iff_exists.1 ((mem_allOps' I r).1 hr)
+    obtain ⟨m, hm⟩ := hn r.1 r.2 op hop
+    have : machOf I r = m := by rw [show r = (r.1, r.2) from rfl, machOf_eq hop, hm]; rfl
+    simp only [decide_eq_true_eq, this]
+    exact machine_lt I r.1 r.2 m op hop (by rw [hm]; simp)
+  · intro m x hx
+    by_cases hm : m < numMachines I
+    · have : (cpSchedule I v).getD m [] = sortSOps ((opsOn I m).map (sopOf I v)) := by
+        simp [cpSchedule, List.getD_eq_getElem?_getD, hm]
+      rw [this] at hx
+      obtain ⟨r, hr, rfl⟩ := List.mem_map.1 ((sortSOps_spec _).1.mem_iff.1 hx)
+      exact (mem_opsOn.1 hr).2
+    · have : (cpSchedule I v).getD m [] = [] := by
+        simp [cpSchedule, List.getD_eq_getElem?_getD, hm]
+      rw [this] at hx; cases hx
+
+/-! ## lower bounds -/
+
+/-- **C03 (job-length bound).** No solution finishes before the total duration of any job. -/
+theorem C03_job_bound (I : Instance) (hv : Valid I) (hn : NonFlexI I) (v : Nat → Int) (hs : (cpModel I).Sat v)
+    (j : Nat) (hj : j < I.length) : jobDurL (I.getD j []) ≤ v (makespanVar I) := by
+  obtain ⟨hT, hB, _⟩ := C03_solution_feasible I hv hn v hs
+  have hmk0 : 0 ≤ v (makespanVar I) := (hs.dom (makespanVar I) _ (cp_dom I _ (by simp [makespanVar]))).1
+  -- every prefix of the job fits before the start of the next operation
+  have key : ∀ p, p ≤ (I.getD j []).length → withinJob I j p ≤ v (makespanVar I) ∧
+      (∀ op, getOp I j p = some op → withinJob I j p ≤ (asgOfSol I v).st j p) := by
+    intro p
+    induction p with
+    | zero =>
+      intro _
+      refine ⟨by simp [withinJob]; exact hmk0, fun op hop => ?_⟩
+      simp only [withinJob, List.take_zero, List.map_nil, List.sum_nil]
+      exact hT.nonneg j 0 op hop
+    | succ p ih =>
+      intro hp
+      obtain ⟨_, ih2⟩ := ih (by omega)
+      have hjj : I[j]? = some (I.getD j []) := by simp [List.getD_eq_getElem?_getD, List.getElem?_eq_getElem hj]
+      have hpp : p < (I.getD j []).length := by omega
+      have hop : getOp I j p = some ((I.getD j [])[p]) := by
+        simp only [getOp, hjj, Option.bind_some]; exact List.getElem?_eq_getElem hpp
+      have h1 : withinJob I j (p + 1) = withinJob I j p + ((I.getD j [])[p]).dur :=
+        take_succ_sum _ _ p _ (List.getElem?_eq_getElem hpp)
+      have hst := ih2 _ hop
+      refine ⟨?_, fun op' hop' => ?_⟩
+      · have := hB j p _ hop; omega
+      · have := hT.prec j p _ op' hop hop'; omega
+  have := (key (I.getD j []).length (Nat.le_refl _)).1
+  unfold withinJob at this
+  rw [List.take_length] at this
+  exact this
+
+theorem ordered_sum_le : ∀ (l : List SOp) (L B : Int), l.Pairwise (fun a b => a.end_ ≤ b.start) →
+    (∀ a ∈ l, L ≤ a.start ∧ a.end_ ≤ B) → L ≤ B → (l.map (·.dur)).sum ≤ B - L
+  | [], L, B, _, _, h => by simp; omega
+  | a :: t, L, B, hp, hb, _ => by
+    rw [List.pairwise_cons] at hp
+    have ha := hb a (by simp)
+    have ih := ordered_sum_le t a.end_ B hp.2 (fun x hx => ⟨hp.1 x hx, (hb x (by simp [hx])).2⟩) ha.2
+    simp only [List.map_cons, List.sum_cons, SOp.end_] at ih ha ⊢
+    omega
+
+theorem perm_sum_eq {l l' : List Int} (h : l.Perm l') : l.sum = l'.sum := by
+  induction h with
+  | nil => rfl
+  | cons a _ ih => simp [ih]
+  | swap a b l => simp only [List.sum_cons]; omega
+  | trans _ _ ih1 ih2 => exact ih1.trans ih2
+
+/-- **C03 (machine-load bound).** No solution finishes before the total duration of the operations of any machine. -/
+theorem C03_machine_bound (I : Instance) (hv : Valid I) (v : Nat → Int) (hs : (cpModel I).Sat v)
+    (m : Nat) (hm : m < numMachines I) : ((opsOn I m).map (durOf I)).sum ≤ v (makespanVar I) := by
+  have hord := cpSchedule_machine_ordered hv hs hm
+  obtain ⟨hperm, _⟩ := sortSOps_spec ((opsOn I m).map (sopOf I v))
+  have hmax := hs.con _ (cp_mem_linMax I)
+  simp only [CpCon.holds, List.mem_map, forall_exists_index, and_imp, forall_apply_eq_imp_iff₂] at hmax
+  have hmk0 : 0 ≤ v (makespanVar I) := (hs.dom (makespanVar I) _ (cp_dom I _ (by simp [makespanVar]))).1
+  have hb : ∀ a ∈ sortSOps ((opsOn I m).map (sopOf I v)), 0 ≤ a.start ∧ a.end_ ≤ v (makespanVar I) := by
+    intro a ha
+    obtain ⟨r, hr, rfl⟩ := List.mem_map.1 (hperm.mem_iff.1 ha)
+    have hr' := (mem_opsOn.1 hr).1
+    rw [sopOf_end hs hr']
+    exact ⟨(sat_op hs hr').2.1, hmax.1 r hr'⟩
+  have h1 := ordered_sum_le _ 0 (v (makespanVar I)) hord hb hmk0
+  have h2 : ((sortSOps ((opsOn I m).map (sopOf I v))).map (·.dur)).sum = ((opsOn I m).map (durOf I)).sum := by
+    rw [perm_sum_eq (hperm.map (·.dur)), List.map_map]
+    rfl
+  omega
+
+/-! non-vacuity: an instance with a zero-duration operation that shares its start with another operation of the
+same machine (the case the `(start, end)` sort key exists for), and an optimal solution of its model -/
+def cpExample : Instance := [[⟨[0], 0⟩, ⟨[1], 2⟩], [⟨[0], 3⟩]]
+def cpExampleSol : Nat → Int := fun i => [0, 0, 0, 2, 0, 3, 3].getD i 0
+
+example : Valid cpExample ∧ NonFlexI cpExample := by
+  constructor
+  · apply valid_of_validB; decide
+  · intro j p op hop
+    have : j < 2 ∧ p < 2 := by
+      simp only [getOp, cpExample] at hop
+      rcases j with _ | _ | j <;> rcases p with _ | _ | p <;> simp at hop <;> omega
+    rcases j with _ | _ | j <;> rcases p with _ | _ | p <;> simp [getOp, cpExample] at hop <;> first | omega | (subst hop; exact ⟨_, rfl⟩)
+
+example : cpResult cpExample cpExampleSol =
+    some ([[⟨0, 0, 0, 0, 0⟩, ⟨1, 0, 0, 0, 3⟩], [⟨0, 1, 1, 0, 2⟩]], 3) := by decide
+
 end JS
